@@ -100,6 +100,15 @@ func parsesAsGo(src string) bool {
 var wordRe = func(w string) *regexp.Regexp { return regexp.MustCompile(`\b` + w + `\b`) }
 
 func c01Gen(tier string, emit func(any)) {
+	// (h) the first change renames the package; the instances of the second, which is guarded by the new name, are
+	// instances like any other
+	ren := &model.Change{Kind: "expr", PkgMinus: "p", PkgPlus: "q", Lines: model.L("-pre()", "+pre()")}
+	grd := &model.Change{Kind: "expr", PkgMinus: "q", PkgPlus: "q", Meta: []model.MetaVar{{Name: "x", Kind: "expression"}}, Lines: model.L("-foo(x)", "+mark(x)")}
+	for _, pkg := range []string{"p", "q", "r"} {
+		for _, body := range []string{"pre()\n\tfoo(1)", "foo(1)", "pre()\n\tfoo(foo(2))\n\tbar(3)"} {
+			emit(&MCase{Change: ren, Then: grd, File: "package " + pkg + "\n\nfunc _() {\n\t" + body + "\n}\n", Tag: "h-package-renamed-then-guarded"})
+		}
+	}
 	// (g) for statements whose pattern elides the condition but spells out the init and/or post clause: whatever
 	// the elision stands for, a loop that differs in a spelled-out clause, has a clause the pattern leaves empty,
 	// or is a range loop is no instance
